@@ -402,20 +402,31 @@ func fbFreshReadyConn() *grpc.ClientConn {
 	if c.GetState() != connectivity.Shutdown {
 		return c
 	}
-	nc, err := grpc.NewClient(addr, grpc.WithTransportCredentials(insecure.NewCredentials()))
-	if err != nil {
-		panic("VERIF-INFRA: " + err.Error())
-	}
-	nc.Connect()
-	ctx, cancel := context.WithTimeout(context.Background(), 20*time.Second)
-	defer cancel()
-	for nc.GetState() != connectivity.Ready {
-		if !nc.WaitForStateChange(ctx, nc.GetState()) {
-			panic("VERIF-INFRA: fake BESS front end: connection did not become ready")
+	// several attempts: under heavy load a single dial has been seen to sit in back-off for tens of seconds
+	for attempt := 0; ; attempt++ {
+		nc, err := grpc.NewClient(addr, grpc.WithTransportCredentials(insecure.NewCredentials()))
+		if err != nil {
+			panic("VERIF-INFRA: " + err.Error())
+		}
+		nc.Connect()
+		ctx, cancel := context.WithTimeout(context.Background(), 15*time.Second)
+		ok := true
+		for nc.GetState() != connectivity.Ready {
+			if !nc.WaitForStateChange(ctx, nc.GetState()) {
+				ok = false
+				break
+			}
+		}
+		cancel()
+		if ok {
+			fbReadyCon = nc
+			return nc
+		}
+		nc.Close()
+		if attempt >= 7 {
+			panic("VERIF-INFRA: fake BESS front end: connection did not become ready (8 attempts of 15 s)")
 		}
 	}
-	fbReadyCon = nc
-	return nc
 }
 
 func (s *fbServer) attach(f *fakeBESS) {
